@@ -52,8 +52,12 @@ func (fs *FS) Sub(dir string) (hackpadfs.FS, error) {
 	if !hackpadfs.ValidPath(dir) {
 		return nil, &hackpadfs.PathError{Op: "sub", Path: dir, Err: hackpadfs.ErrInvalid}
 	}
+	root := path.Join(fs.root, dir)
+	if root == "." {
+		root = "" // Sub(".") of an unrooted FS: "." is not a root prefix any OS path has
+	}
 	return &FS{
-		root:       path.Join(fs.root, dir),
+		root:       root,
 		volumeName: fs.volumeName,
 	}, nil
 }
